@@ -326,13 +326,6 @@ class IntervalTier(textgrid_tier.TextgridTier):
         matchList = self.crop(start, end, CropCollision.LAX, False).entries
         newTier = self.new()
 
-        if doShrink is True:
-            # Only what lies inside the tier's span can be cut out of it
-            start = max(start, self.minTimestamp)
-            end = min(end, self.maxTimestamp)
-            if start >= end:
-                return newTier
-
         if len(matchList) == 0:
             pass
         else:
@@ -363,6 +356,11 @@ class IntervalTier(textgrid_tier.TextgridTier):
                     newTier.insertEntry(newEntry)
 
         if doShrink is True:
+            # Only what lies inside the tier's span can be cut out of it
+            start = max(start, self.minTimestamp)
+            end = min(end, self.maxTimestamp)
+
+        if doShrink is True and start < end:
             # Times after the erased region are moved as 'start + (time - end)'
             # rather than 'time - (end - start)': the former maps /end/ exactly
             # onto /start/ and is monotonic under floating-point rounding, so
